@@ -62,6 +62,19 @@ func checkLexerSwitch(p *Program, r *Result, g *goLayouts) {
 			opName[v] = k.OpConst
 		}
 	}
+	// first choice: decide by exploring Next under each opcode value, whatever form the dispatch takes
+	{
+		var specOps []int
+		specNames := map[int]string{}
+		for _, s := range spec {
+			specOps = append(specOps, s.Opcode)
+			specNames[s.Opcode] = s.Name
+		}
+		if checkLexerDispatchSemantic(p, r, fname, opName, specOps, specNames) {
+			return
+		}
+		r.note("C11.a", fname, "dispatch", p.pos(fd.Pos()), "exploration by opcode value did not decide (a token is not a constant); falling back to matching the dispatch form")
+	}
 	// all case labels in switches over the opcode, with what the arm does
 	type arm struct {
 		cc      *ast.CaseClause
@@ -315,7 +328,11 @@ func checkInChunkWalk(p *Program, r *Result) {
 	fname := funcName(fn)
 	// comparisons of the opcode byte with constants
 	var opCmps []*ssa.BinOp
-	for _, in := range instrsOf(fn) {
+	var walkInstrs []ssa.Instruction
+	for _, rf := range regionOf(p, fn, 3) { // the walk may live in an unexported helper of loadChunk
+		walkInstrs = append(walkInstrs, instrsOf(rf)...)
+	}
+	for _, in := range walkInstrs {
 		b, ok := in.(*ssa.BinOp)
 		if !ok || (b.Op != token.EQL && b.Op != token.NEQ) {
 			continue
@@ -340,7 +357,7 @@ func checkInChunkWalk(p *Program, r *Result) {
 			if b.Op == token.NEQ {
 				other = iff.Block().Succs[0]
 			}
-			if returnsNonNilErrOnAllPaths(fn, other) {
+			if returnsNonNilErrOnAllPaths(iff.Parent(), other) {
 				bad = "opcodes other than the interpreted one lead to an error at " + p.pos(iff.Pos())
 			}
 		}
